@@ -44,7 +44,7 @@ def read_ndjson(path):
 def run_ddsmt(workdir, input_text, spec, opts=(), entry='launcher',
               timeout=180, ext='.smt2', env_extra=None, cmd_extra=(),
               cc_spec=None, pre_outfile=None, popen_hook=None, prefix=None, mangle=None,
-              tmpdir=None):
+              tmpdir=None, same_basename=False):
     """One ddSMT session in `workdir` (created; caller removes it)."""
     os.makedirs(workdir, exist_ok=True)
     tmp = tmpdir or os.path.join(workdir, 'tmp')
@@ -75,6 +75,18 @@ def run_ddsmt(workdir, input_text, spec, opts=(), entry='launcher',
         opts += ['-c', f'{PRED} {ccfile}']
     evlog = os.path.join(workdir, 'events.ndjson')
     ddargs = opts + [infile, outfile, PRED, specfile] + list(cmd_extra)
+    if same_basename and cc_spec is not None:
+        # the command and the cross-check command are two different
+        # executables with the same base name in different directories
+        for sub, sf in (('m', specfile), ('c', ccfile)):
+            os.makedirs(os.path.join(workdir, sub), exist_ok=True)
+            w = os.path.join(workdir, sub, 'run')
+            with open(w, 'w') as f:
+                f.write(f'#!/bin/sh\nexec {common.PY} {PRED} {sf} "$@"\n')
+            os.chmod(w, 0o755)
+        opts[opts.index('-c') + 1] = os.path.join(workdir, 'c', 'run')
+        ddargs = opts + [infile, outfile, os.path.join(workdir, 'm', 'run')] \
+            + list(cmd_extra)
     if mangle == 'input-missing':
         os.remove(infile)
     elif mangle == 'input-is-directory':
